@@ -122,6 +122,7 @@ class Check:
         drifted = []
         bounded = []
         spec_validation = []
+        must_fail = []
         obligations = discharged = 0
         by_backend = {}
         solver_s = 0.0
@@ -140,6 +141,8 @@ class Check:
                     crashes.append({"unit": unit, "trace": f"spec twin disagrees with its reference: {sv}"})
             for b in rep.get("bounded", []):
                 bounded.append(b)
+            if rep.get("must_fail"):
+                must_fail.append(rep["must_fail"])
             if rep.get("unsupported"):
                 drifted.append({"unit": unit, "reason": rep["unsupported"]})
                 # bounded stand-in decides this unit for this run
@@ -231,6 +234,8 @@ class Check:
                 "samples": samples,
                 "spec_validation": spec_validation,
                 "bounded_standins": bounded,
+                "must_fail_checked": {"mutants": sum(m["mutants"] for m in must_fail), "killed": sum(m["killed"] for m in must_fail),
+                                      "survivors": [f"{m['unit']}: {s}" for m in must_fail for s in m["survivors"]][:20]},
                 "drifted_to_bounded": drifted,
                 "known_findings_seen": known_seen,
                 "undecided": undecided[:20],
